@@ -35,6 +35,7 @@ type Val struct {
 	// Static side information (not part of the logical value):
 	Origin string // "T.f" when the value was loaded from that struct field (function-typed fields)
 	OriginBase string // the object the field was loaded from
+	Shared string // non-empty: the object may be used by other goroutines at the same time (where it came from)
 	Elems []Val // known elements when this ref is a freshly built literal slice/array
 	Boxed *Val  // value boxed by MakeInterface (static knowledge)
 	Ident string // []byte values: identity of the backing array (ownership tracking, static)
